@@ -72,8 +72,9 @@ Definition update_tcr (t : timer) (tcr : Z) : timer :=
   let clr := Z.land tcr 0x18 / 8 in
   let cks := Z.land tcr 7 in
   let presc := if cks =? 0 then 0 else if cks =? 1 then 8 else if cks =? 2 then 64
-               else if cks =? 3 then 8192 else t_presc t in
-  mkTimer (t_state t) presc cmib cmia ovi clr.
+               else if cks =? 3 then 8192 else 0 in
+  (* a newly selected clock starts a fresh prescaler period *)
+  mkTimer (if presc =? t_presc t then t_state t else 0) presc cmib cmia ovi clr.
 
 Definition write_registers (b : bus) (a v : Z) : bus :=
   if a =? TCR0 then bset_tmr (update_tcr (b_tmr b) v) b else b.
